@@ -29,6 +29,66 @@ END = r"Try::branch\(read::\{closure#0\}\(__awaitee⟵Payload::read\([$^]self\.s
 PAY = r"Try::branch\(read::\{closure#0\}\(__awaitee⟵Payload::read\([$^]self\.sock\), .*\)↓Ready\.0\)↓Continue\.0↓Ok\.0↓Some\.0"
 
 
+def check_server_sends_items_in_order(ctx, f, rule="R-CHK"):
+    """The client applies what it receives in the order received, so the server must send the source's items in the
+    order the source yields them: in each response loop, a PDU built from an item (new_if_supported = Some) is written
+    before the next item is pulled and before End-of-Data — there is no way round the loop, or out of it, from the
+    `Some` edge that does not pass the write of that PDU; and what is written is that PDU, not one kept from an earlier
+    round."""
+    n = 0
+    for b in f.bodies.values():
+        if not (b.name.startswith("rtr::server::") and b.is_coroutine):
+            continue
+        mk = [c for c in b.calls() if c.res == PDU + "Payload::new_if_supported" and not b.is_cleanup(c.bb)]
+        if not mk:
+            continue
+        s = K.sym_of(b)
+        oc = outcome(b)
+        writes = [c for c in b.calls() if c.res == PDU + "Payload::write" and not b.is_cleanup(c.bb)]
+        wblocks = {c.bb for c in writes}
+        pulls = {c.bb for c in b.calls() if c.name == "next" and (c.trait or "").rsplit("::", 1)[-1] in ("PayloadDiff", "PayloadSet")
+                 and not b.is_cleanup(c.bb)}
+        ends = {c.bb for c in b.calls() if c.res in (PDU + "EndOfData::new", PDU + "EndOfData::write") and not b.is_cleanup(c.bb)}
+        fn = short(root_fn(f, b.name))
+        for c in mk:
+            n += 1
+            # the `Some` edges of the switches on this call's result
+            some_targets = []
+            call_txt = None
+            for bi, blk in enumerate(b.blocks):
+                t = blk["term"]
+                if t["t"] != "switch" or blk.get("cleanup"):
+                    continue
+                d = strip_deep(s.operand(t["discr"]))
+                if d[0] != "discr":
+                    continue
+                inner = strip_deep(d[1])
+                while inner[0] in ("mvar",):
+                    inner = strip_deep(inner[3])
+                if inner[0] == "call" and inner[1] == PDU + "Payload::new_if_supported" and (inner[3] or {}).get("bb") == c.bb:
+                    for v, tb in b.switch_edges(bi):
+                        if v == 1 or (v is None and not any(x == 1 for x, _ in b.switch_edges(bi))):
+                            some_targets.append(tb)
+            if not some_targets:
+                ctx.ob(rule, "%s:each-item-written-in-its-round" % fn, False,
+                       "cannot find where %s looks at the result of new_if_supported" % fn, where=c.where())
+                continue
+            escaped = []
+            for tb in some_targets:
+                reach = b.reachable(tb, removed_blocks=wblocks)
+                bad = sorted((reach & pulls) | (reach & ends) | (reach & set(oc.returns())))
+                if bad:
+                    escaped.append({"from_line": b.line_of(tb), "reaches_without_writing": [b.line_of(x) for x in bad]})
+            # what is written is the PDU just built
+            recv = [K.arg_renders(w)[0] for w in writes]
+            own = all("Payload::new_if_supported(" in r for r in recv)
+            ctx.ob(rule, "%s:each-item-written-in-its-round" % fn, not escaped and bool(writes) and own,
+                   "%s writes the PDU of each item the source yields before pulling the next item or ending the response "
+                   "(the client applies items in the order received)" % fn, where=c.where(),
+                   detail={"escapes": escaped, "written": [r[:100] for r in recv]})
+    ctx.floor(rule, "server response loops building payload PDUs", n, 2)
+
+
 def run(ctx):
     f = ctx.facts()
     ctx.rule("R-FLOW", "operand provenance")
@@ -50,6 +110,7 @@ def run(ctx):
 
     from props.C07 import check_payload_new
     check_payload_new(ctx, f)
+    check_server_sends_items_in_order(ctx, f)
 
     checks = {}
     for meth, reset_flag in (("serial", "0"), ("reset", "1")):
